@@ -51,19 +51,27 @@ impl Parameters {
         }
 
         Ok(Parameters {
-            a1: params["a1"].as_f64().ok_or_else(|| ParameterError::MissingField("a1".into()))?,
-            a2: params["a2"].as_f64().ok_or_else(|| ParameterError::MissingField("a2".into()))?,
-            b: params["b"].as_f64().ok_or_else(|| ParameterError::MissingField("b".into()))?,
-            c1: params["c1"].as_f64().ok_or_else(|| ParameterError::MissingField("c1".into()))?,
-            c2: params["c2"].as_f64().ok_or_else(|| ParameterError::MissingField("c2".into()))?,
-            c3: params["c3"].as_f64().ok_or_else(|| ParameterError::MissingField("c3".into()))?,
-            c4: params["c4"].as_f64().ok_or_else(|| ParameterError::MissingField("c4".into()))?,
+            a1: Self::read_length(params, "a1")?,
+            a2: Self::read_length(params, "a2")?,
+            b: Self::read_length(params, "b")?,
+            c1: Self::read_length(params, "c1")?,
+            c2: Self::read_length(params, "c2")?,
+            c3: Self::read_length(params, "c3")?,
+            c4: Self::read_length(params, "c4")?,
             dof: dof,
             offsets: Self::read_offsets(&doc["opw_kinematics_joint_offsets"])?,
             sign_corrections: sign_corrections,
         })
     }
 
+
+    /// Reads the geometric parameter that may be written as real (0.15) or integer (0) literal.
+    fn read_length(params: &Yaml, name: &str) -> Result<f64, ParameterError> {
+        match &params[name] {
+            Yaml::Integer(value) => Ok(*value as f64),
+            other => other.as_f64().ok_or_else(|| ParameterError::MissingField(name.into())),
+        }
+    }
 
     fn read_sign_corrections(doc: &Yaml) -> Result<[i8; 6], ParameterError> {
         // Store the temporary vector in a variable for longer lifetime
